@@ -1,16 +1,30 @@
-"""C03 — Control lines and Python blocks execute with Python semantics"""
-from vrf.propkit import run_pyvc, contracts_for, BASE_TRUST, BASE_ASSUME
+"""C03 — Control lines and Python blocks execute with Python semantics; `loop`."""
+import time
+
+from vrf.core import Result, DISCHARGED, VIOLATED, UNDECIDED, ERROR, BOUNDED_OK
+from vrf.propkit import run_pyvc, run_schema, contracts_for, pool_map, BASE_TRUST, BASE_ASSUME
+from vrf.schema.programs import CORE
 
 LEVEL = "proof"
 META = {
     "level": "proof",
-    "technique": "contract-based deductive verification: sidecar pre/postconditions, frames and loop invariants on the real functions, VCs generated from their AST, discharged by z3/cvc5",
-    "level_text": 'LoopStack/LoopContext functions are verified against contracts taken from the statement (index/first/last/even/odd/reverse_index/cycle/parent; enter/exit restore the enclosing loop) for all stack depths and iterables.',
-    "level_note": 'Trusted: the pyvc encoding of Python semantics (DESIGN 3.1), z3/cvc5, assumed contracts listed in the evidence, the induction hypothesis for opaque render callables (R3). Native small-scope runs of the same contracts are bounded stand-ins, never counted as proved.',
+    "technique": "contract-based deductive verification: contracts on LoopStack/LoopContext (z3) and on the functions the real compiler generates for schematic `% for`/`% if`/`% while`/`% try` templates (loop-stack restoration on every exit of the construct, `loop` rebinding), plus a bounded comparison of control templates with the same statements run natively",
+    "level_text": "LoopContext/LoopStack are verified against the statement's definitions of index/first/last/even/odd/reverse_index/cycle/parent for all iterables and stack depths; for every schematic for-construct the generated code is proved to leave the loop stack and the name `loop` as they were when the construct ends normally, by break, by return or by an exception.",
+    "level_note": "Trusted: pyvc encoding, z3/cvc5, R3 (holes stand for arbitrary content), the schema family's coverage of the emitters' branches. Bounded stand-ins (not counted): native small-scope runs of the runtime contracts; generated control-structure templates (depth <= 3) compared with native execution of the same Python.",
 }
+
+LOOP_PROGRAMS = ("for-loop", "for-loop-nested", "for-break-return", "call-in-loop", "control")
+
+
+def control_grid_chunk(args):
+    from vrf.bounded.control_grid import run_chunk
+    return run_chunk(args)
 
 
 def run(rep, tier):
     rep.trust(*BASE_TRUST)
     rep.assume(*BASE_ASSUME)
     run_pyvc(rep, contracts_for("C03"), native_limit=150 if tier == "quick" else 600)
+    run_schema(rep, [p for p in CORE if p.name in LOOP_PROGRAMS], labels="all")
+    from vrf.bounded.control_grid import run_grid
+    run_grid(rep, tier)
